@@ -24,7 +24,7 @@ import numpy as np
 from harness import lensgen as G
 from harness import tlc as T
 from harness.drivers import c01
-from harness.dy import dy
+from harness.dy import dy, undy
 
 
 # ------------------------------------------------------------------ recipes --
@@ -205,6 +205,14 @@ def _meta_case(args):
             ks1 = list(range(1, n1))
             ks2 = [q if q <= j + 1 else q + 1 for q in ks1]
             ev["a"] = rays_of(o, H, P, w, ks1)
+            # admissible only if the dummy plane lies between its neighbours along every sampled ray:
+            # a plane that cuts a neighbouring surface's sag inside the beam is met "backwards"
+            # (virtual propagation) and is not a description of the same physical system
+            zd = float(np.ravel(o2.surface_group.positions)[j + 2])
+            zs = [[float(undy(rec[q][2])) for q in (j, j + 1)] for rec in ev["a"]] if j + 1 < len(ks1) else \
+                 [[float(undy(rec[j][2])), math.inf] for rec in ev["a"]]
+            if any(not (z0 < zd < z1) for z0, z1 in zs if math.isfinite(z0)):
+                return {"skip": "dummy plane would cut a neighbouring surface inside the beam"}
             ev["b"] = rays_of(o2, H, P, w, ks2)
             ev["kind"] = "same"
             ev["bits"] = 40
